@@ -117,6 +117,12 @@ func RandH(r *fw.Rng) H {
 		h.ID = uint16(r.Pick(IDs))
 	} else {
 		h.ID = RandU16(r)
+		if h.ID == 0x8003 {
+			// the parser-level harnesses recognise the server's own re-requests by this ID (they are appended to the
+			// parse result); a random inbound frame with the same ID was once taken for one (false alarm in a
+			// thorough run, 1 frame in 65536)
+			h.ID = 0x8004
+		}
 	}
 	if r.Chance(15) {
 		h.Bits11 = uint16(r.Pick([]int{0x0800, 0x1000, 0x1800, 0x8000, 0x9800}))
